@@ -1609,6 +1609,11 @@ class ServerClientConnection(ConnectionBase):
         self.version = 1
 
     def _recvClientHello(self, data):
+        # the session key is negotiated once: ignore a further hello
+        # from a peer that already holds the session key
+        if self.session_key_bytes is not None:
+            return
+
         msg = Serializable.loadb(data)
 
         # TODO: API to expose setting protocol version
